@@ -587,6 +587,37 @@ def r06_5(chk, repo):
                for e in sc), fingerprint="unit-spacing", found=[str(c)[:80] for c in skip])
     # surface.py
     sf = repo.module(SF)
+    if "smooth_laplacian" in sf.funcs:
+        # the smoothing helper moves vertices; it hands back every vertex and every face it was given (dropping sheets of the level set
+        # leaves atoms of the molecule outside the surface)
+        evs_ = sf.ev("smooth_laplacian")
+        chk.saw(SF, "smooth_laplacian")
+        vp, fp = evs_.param_names[0], evs_.param_names[1]
+        def is_whole(t):
+            a = t.as_atom() if t is not None else None
+            if not (a and a[0] == "call" and (call_name(a) or "").split(".")[-1] == "Trimesh"):
+                return False
+            kw = dict(a[3]) if len(a) > 3 and a[3] else {}
+            va = a[2][0] if len(a[2]) > 0 else kw.get("vertices")
+            fa = a[2][1] if len(a[2]) > 1 else kw.get("faces")
+            return va is not None and fa is not None and va.key() == vp and fa.key() == fp
+
+        def attr_of(t, name):
+            a = t.as_atom() if t is not None else None
+            return a[1] if a and a[0] == "attr" and a[2] == name else None
+        okw = bool(evs_.returns)
+        foundw = None
+        for re_ in evs_.returns:
+            it = seq_items(re_.value) if re_.value is not None else None
+            if not (it and len(it) == 2 and is_whole(attr_of(it[0], "vertices")) and is_whole(attr_of(it[1], "faces"))
+                    and attr_of(it[0], "vertices").key() == attr_of(it[1], "faces").key()):
+                okw, foundw = False, foundw or str(re_.value)[:200]
+        filt = [e for e in evs_.events if e.kind == "call" and (call_name(e.value.as_atom() or ()) or "").startswith("trimesh.smoothing.filter_")]
+        okf = bool(filt) and all(e.extra["args"] and is_whole(e.extra["args"][0]) for e in filt)
+        chk.ob("R06.5", SF, "smooth_laplacian", "the mesh that is smoothed and handed back is the whole mesh it was given (all vertices, all faces: "
+               "no component, face or vertex is dropped)", okw and okf, fingerprint="smooth:whole-mesh",
+               expected=f"mesh = Trimesh({vp}, {fp}); filter(mesh); return mesh.vertices, mesh.faces",
+               found=foundw or [str(e.extra['args'][0])[:120] for e in filt if e.extra["args"]])
     for q2 in ("promolecule_density_isosurface", "stockholder_weight_isosurface"):
         ev2 = sf.ev(q2, opaque={"l", "u", "verts", "faces", "pts", "d", "weights", "x", "y", "z"})
         chk.saw(SF, q2)
@@ -617,25 +648,32 @@ def r06_5(chk, repo):
         okp = kinds.count("permute(1,0,2)+origin") == 1 and "other" not in kinds and kinds[0] == "mesh" and not any(k.startswith("permute(") and k != "permute(1,0,2)+origin" for k in kinds)
         chk.ob("R06.5", SF, q2, "vertex columns are permuted (1, 0, 2) exactly once (the field comes from an 'xy' meshgrid) and the box origin is added once",
                okp, fingerprint=f"{q2}:perm", found=kinds)
-        ret = ev2.returns[-1].value.as_atom()
-        okret = bool(ret and len(ret[2]) == 4 and "$verts" in ret[2][0].key() and "$faces" in ret[2][1].key())
         last = [k for k in ev2.defs if k[1] == "verts"]
         nver = len(last)
-        rk = ret[2][0].key() if okret else ""
-        final_ok = okret and (rk == f"$verts'{nver - 1}" or (rk.startswith("(ite ") and f"$verts'{nver - 1}" in rk))
-        chk.ob("R06.5", SF, q2, "the returned mesh carries the final (permuted, shifted) vertices", bool(final_ok), fingerprint=f"{q2}:return",
-               found=rk)
-        # the normals array of the returned mesh is in the frame of the vertices: permuted the same way, not shifted
-        nr = ret[2][2] if ret and len(ret[2]) == 4 else None
-        nk = nr.key() if nr is not None else ""
-        okn = False
-        if nr is not None:
-            na = nr.as_atom()
-            if na and na[0] == "sub" and na[1].key() == "numpy.c_":
-                cols = [column_of(x) for x in na[2]]
-                okn = all(cols) and [c[1] for c in cols] == [1, 0, 2] and len({c[0].key() for c in cols}) == 1 and "marching_cubes(" in cols[0][0].key()
+        # every exit of the function (a shortcut that skips the property evaluation included) hands out the mesh in the Cartesian frame
+        final_all, okn_all, rk_bad, nk_bad, bad_node = True, True, "", "", None
+        for re_ in ev2.returns:
+            ret = re_.value.as_atom() if re_.value is not None else None
+            okret = bool(ret and len(ret[2]) == 4 and "$verts" in ret[2][0].key() and "$faces" in ret[2][1].key())
+            rk = ret[2][0].key() if okret else str(re_.value)[:80]
+            final_ok = okret and (rk == f"$verts'{nver - 1}" or (rk.startswith("(ite ") and f"$verts'{nver - 1}" in rk))
+            if not final_ok:
+                final_all, rk_bad, bad_node = False, rk_bad or rk, bad_node or re_.node
+            # the normals array of the returned mesh is in the frame of the vertices: permuted the same way, not shifted
+            nr = ret[2][2] if ret and len(ret[2]) == 4 else None
+            nk = nr.key() if nr is not None else ""
+            okn = False
+            if nr is not None:
+                na = nr.as_atom()
+                if na and na[0] == "sub" and na[1].key() == "numpy.c_":
+                    cols = [column_of(x) for x in na[2]]
+                    okn = all(cols) and [c[1] for c in cols] == [1, 0, 2] and len({c[0].key() for c in cols}) == 1 and "marching_cubes(" in cols[0][0].key()
+            if not okn:
+                okn_all, nk_bad = False, nk_bad or nk or "?"
+        chk.ob("R06.5", SF, q2, "the returned mesh carries the final (permuted, shifted) vertices on every exit", bool(ev2.returns) and final_all,
+               fingerprint=f"{q2}:return", found=rk_bad, node=bad_node)
         chk.ob("R06.5", SF, q2, "the normals returned with the mesh are permuted (1, 0, 2) like the vertices (same Cartesian frame), and not shifted",
-               okn, fingerprint=f"{q2}:normals", expected="numpy.c_[n[:, 1], n[:, 0], n[:, 2]] of the mesher's normals", found=nk[:140])
+               bool(ev2.returns) and okn_all, fingerprint=f"{q2}:normals", expected="numpy.c_[n[:, 1], n[:, 0], n[:, 2]] of the mesher's normals", found=nk_bad[:140])
         mg = [e for e in ev2.events if e.kind == "call" and call_name(e.value.as_atom() or ()) == "numpy.meshgrid"]
         okm = bool(mg) and dict(mg[0].extra["kwargs"]).get("indexing") is None and [a.key()[-7:] for a in mg[0].extra["args"]] and len(mg[0].extra["args"]) == 3
         chk.ob("R06.5", SF, q2, "the field is sampled on a default ('xy') meshgrid of the x, y, z grids", okm, fingerprint=f"{q2}:meshgrid")
